@@ -51,6 +51,10 @@ def rule_generated(src, rep, counts):
                 for cut in sorted({0, len(text) // 2, len(text)}):
                     runs = [(text[:cut], A1), (text[cut:], A2)] if text else [("", {})]
                     yield text, [r for r in runs if r[0] or not text][:2] or [("", {})]
+                    if 0 < cut < len(text):
+                        # the same characters arrived at through a history: an operand whose views were memoised, then +
+                        yield text, [(text[:cut], {}), (text[cut:], A2), "str + looked-at value"]
+                        yield text, [(text[:cut], A1), (text[cut:], {}), "looked-at value + str"]
     jobs = []
     for text, runs in values("a, "):
         for sep, regex in ((",", False), (" ", False), ("a", False), (",,", False), (", ", False), (",+", True), ("a|,", True), (r"\s*,\s*", True)):
@@ -75,7 +79,22 @@ def rule_generated(src, rep, counts):
 
     def one(job):
         kind, text, runs, arg = job
-        obj = mk(it, *runs)
+        build = None
+        if len(runs) == 3 and isinstance(runs[2], str):
+            from .c06 import _look
+            build, runs = runs[2], runs[:2]
+            if build == "str + looked-at value":
+                r0 = it.callm(_look(it, mk(it, runs[1])), "__radd__", runs[0][0])
+            else:
+                r0 = it.callm(_look(it, mk(it, runs[0])), "__add__", runs[1][0])
+            if r0[0] == "incoherent":
+                return ("G-delegated" if kind == "deleg" else {"split": "G-split", "splitlines": "G-splitlines"}.get(kind, "G-just"),
+                        "%r built as %s" % (text, build), r0[1])
+            if r0[0] != "ok" or not isinstance(r0[1], Obj) or cells(runs_of(r0[1])) != cells(runs):
+                return None          # concatenation itself is C06's business
+            obj = r0[1]
+        else:
+            obj = mk(it, *runs)
         orig = cells([r for r in runs])
         try:
             if kind == "split":
@@ -110,7 +129,7 @@ def rule_generated(src, rep, counts):
             return ("error", str(e))
         if r[0] == "opaque":
             return ("error", "%s outside the evaluated subset: %s" % (kind, r[1]))
-        call = "%r (runs %s) .%s%r" % (text, [t for t, _ in runs], kind if kind != "deleg" else arg[0], arg if kind != "deleg" else arg[1])
+        call = "%r (runs %s%s) .%s%r" % (text, [t for t, _ in runs], ", built as " + build if build else "", kind if kind != "deleg" else arg[0], arg if kind != "deleg" else arg[1])
         rule = {"split": "G-split", "splitlines": "G-splitlines", "ljust": "G-just", "rjust": "G-just", "deleg": "G-delegated"}[kind]
         if isinstance(want, tuple) and want and want[0] == "raise":
             return None if r == want else (rule, call, "FmtStr gives %s, str raises %s" % (_show(r), want[1]))
